@@ -68,6 +68,7 @@ type Scenario struct {
 	DefTimeout  bool             `json:"def_timeout,omitempty"`   // Transfer.ReadTimeout is left at zero: the documented default of 2 s applies (read_timeout_ms is 2000)
 	QCase       bool             `json:"qcase,omitempty"`         // the zone is asked for in another letter case than the one the sender spells it in
 	LocalClose  int              `json:"local_close,omitempty"`   // the application closes the transfer's connection itself after taking this many envelopes
+	UDP         bool             `json:"udp,omitempty"`           // IXFR over UDP (RFC 1995, section 2): the application hands Transfer.In a datagram connection; the answer is one datagram - of more than 512 octets in most runs - from a real Server's handler
 	NoDeadlines bool             `json:"no_deadlines,omitempty"`  // the caller-supplied connection is of a kind that cannot time out (SetReadDeadline reports an error): a transfer over a healthy link is complete all the same
 	FinWithLast bool             `json:"fin_with_last,omitempty"` // a link without faults whose far end closes right behind the closing envelope: the receiver's last read may return the last octets together with io.EOF, as an io.Reader may (a TLS connection, a tunnel)
 	Big         int              `json:"big,omitempty"`           // axfr / ixfr-axfr: the envelope that holds the second record of the zone is filled up with TXT records until its message - as the sender builds it, unsigned TSIG stub included - is 65535 + Big - 1000 octets long (Big 1000: exactly what a stream can frame before the MAC is added; 0 = off)
@@ -99,6 +100,22 @@ func Gen(seed uint64, tier string) any {
 	sc.Seqs = 1 + r.IntN(3)
 	if sc.Kind == "ixfr-inc" && sc.Records > 10 {
 		sc.Records = r.IntN(10)
+	}
+	if strings.HasPrefix(sc.Kind, "ixfr") && core.Chance(r, 6) {
+		// IXFR over UDP: one datagram, no middlebox, no faults; small and large answers
+		sc.UDP = true
+		sc.Records = core.Pick(r, 0, 1, 3, 6, 12, 20)
+		if sc.Kind == "ixfr-inc" && sc.Records > 8 {
+			sc.Records = 8
+		}
+		if core.Chance(r, 40) {
+			sc.Alg, sc.ClientKey, sc.ServerKey, sc.Fudge = core.Pick(r, algs...), true, true, 300
+		}
+		sc.TimeoutMs = core.Pick(r, 2000, 5000)
+		sc.DelayMs = core.Pick(r, 0, 1, 20)
+		sc.QCase = core.Chance(r, 15)
+		sc.Sender = "out"
+		return sc
 	}
 	n := totalRecords(sc)
 	switch r.IntN(4) {
@@ -1264,11 +1281,173 @@ func Run(t *testing.T, scAny any, verbose bool) *core.Result {
 		res.Bump("fault.all_envelope_compositions")
 		return res
 	}
-	leak := common.Bubble(t, func() { runIn(sc, res, verbose) })
+	leak := common.Bubble(t, func() {
+		if sc.UDP {
+			runUDP(sc, res, verbose)
+		} else {
+			runIn(sc, res, verbose)
+		}
+	})
 	if leak != "" && res.Verdict == core.OK {
 		res.Fail("T2", "goroutine-leak", "%s", leak)
 	}
 	return res
+}
+
+// --- IXFR over UDP: the whole answer is one datagram
+
+type udpRun struct {
+	sc      *Scenario
+	k       *kernel.K
+	res     *core.Result
+	srv     *dns.Server
+	conn    *simnet.DgramConn
+	sent    []string // the records the handler put into its answer
+	items   []item
+	inErr   string
+	cliFin  bool
+	served  bool
+	closedC bool
+}
+
+//go:norace
+func (u *udpRun) ServeDNS(w dns.ResponseWriter, r *dns.Msg) {
+	m := new(dns.Msg)
+	m.SetReply(r)
+	m.Authoritative = true
+	m.Answer = sequence(u.sc)
+	if ts := r.IsTsig(); ts != nil && w.TsigStatus() == nil {
+		m.SetTsig(ts.Hdr.Name, ts.Algorithm, ts.Fudge, time.Now().Unix())
+	}
+	var recs []string
+	for _, rr := range m.Answer {
+		recs = append(recs, rr.String())
+	}
+	err := w.WriteMsg(m)
+	u.k.Lock()
+	u.sent, u.served = recs, err == nil
+	u.k.EffectLocked("udp answer " + strconv.Itoa(len(recs)) + " " + common.ErrStr(err))
+	u.k.Unlock()
+}
+
+type udpServe struct{ u *udpRun }
+
+//go:norace
+func (s udpServe) RunEvent(time.Time) { s.u.srv.ActivateAndServe() }
+
+type udpClient struct{ u *udpRun }
+
+//go:norace
+func (c udpClient) RunEvent(time.Time) {
+	u, k, sc := c.u, c.u.k, c.u.sc
+	defer func() {
+		u.srv.Shutdown() // (the application's last act: the server goes down inside the simulation)
+		k.Announce()
+		k.Lock()
+		u.cliFin = true
+		k.Unlock()
+	}()
+	t := &dns.Transfer{Conn: &dns.Conn{Conn: u.conn}, ReadTimeout: time.Duration(sc.TimeoutMs) * time.Millisecond}
+	asked := zone
+	if sc.QCase {
+		asked = "XFR.Example."
+	}
+	q := new(dns.Msg)
+	q.SetIxfr(asked, clientSerial, "ns1."+zone, "hostmaster."+zone)
+	q.Id = uint16(4000 + sc.RunSeed%1000)
+	if sc.Alg != "" {
+		t.TsigSecret = secrets()
+		q.SetTsig(keyName, sc.Alg, uint16(sc.Fudge), time.Now().Unix())
+	}
+	env, err := t.In(q, "10.0.0.1:53")
+	if err != nil {
+		k.Lock()
+		u.inErr = err.Error()
+		k.Unlock()
+		return
+	}
+	for e := range env {
+		it := item{err: common.ErrStr(e.Error), t: time.Now()}
+		for _, rr := range e.RR {
+			it.recs = append(it.recs, rr.String())
+		}
+		k.Lock()
+		u.items = append(u.items, it)
+		k.EffectLocked("env " + strconv.Itoa(len(it.recs)) + " " + errClass(it.err))
+		k.Unlock()
+	}
+	k.Lock()
+	u.closedC = u.conn.IsClosed()
+	k.Unlock()
+}
+
+type udpDone struct{ u *udpRun }
+
+//go:norace
+func (d udpDone) Check(time.Time) string {
+	if d.u.cliFin {
+		return "done"
+	}
+	return ""
+}
+
+//go:norace
+func runUDP(sc *Scenario, res *core.Result, verbose bool) {
+	k := kernel.New(kernel.Config{Seed: sc.RunSeed, Strategy: sc.Strategy, PCTDepth: sc.PCTDepth, PCTSpan: 100, Verbose: verbose, MaxSteps: 20000})
+	kernel.SetCurrent(k)
+	defer kernel.SetCurrent(nil)
+	n := simnet.New(k)
+	n.Dgram = simnet.DgramLink{MinDelay: time.Duration(sc.DelayMs) * time.Millisecond, Jitter: time.Duration(sc.DelayMs) * time.Millisecond}
+	u := &udpRun{sc: sc, k: k, res: res}
+	pc := n.ListenPacket()
+	u.srv = &dns.Server{PacketConn: pc, Handler: u, ReadTimeout: time.Hour, UDPSize: 4096}
+	if sc.Alg != "" {
+		u.srv.TsigSecret = secrets()
+	}
+	u.conn = n.DialPacket(pc)
+	start0 := time.Now()
+	k.Go("serve", udpServe{u})
+	k.Go("client", udpClient{u})
+	out := k.Run(udpDone{u})
+	res.Steps, res.SimNS, res.Digest = k.Steps, int64(time.Since(start0)), k.Digest()
+	for name, v := range k.Stats {
+		res.Stats[name] += v
+	}
+	if verbose {
+		res.Log = k.Log
+	}
+	k.Abort()
+	res.Bump("cover.ixfr_over_udp")
+	res.Nontrivial = true
+	res.Class = fmt.Sprintf("udp/%s/tsig=%v/recs=%d/%s", sc.Kind, sc.Alg != "", len(u.sent), core.Mode)
+	if out != kernel.Finished {
+		res.Fail("T6", "transfer-stuck", "IXFR over UDP: the run ended with %q before the receiver's channel was closed (answer sent: %v)", out, u.served)
+		return
+	}
+	if u.inErr != "" {
+		res.Fail("T1", "in-failed", "Transfer.In over a datagram connection failed to send the request: %s", u.inErr)
+		return
+	}
+	if !u.served {
+		return // the handler could not send its answer: nothing to judge on the receiver's side
+	}
+	// T1 / T2: one datagram holds the whole answer; the receiver delivers exactly its records, in order, and ends
+	res.Bump("oracle.T1_exact_delivery_udp")
+	var got []string
+	for _, it := range u.items {
+		if it.err != "" {
+			res.Fail("T1", "error-on-complete-transfer", "IXFR over UDP: the answer (%d records in one datagram) is a complete, valid transfer, but the receiver reported %q", len(u.sent), it.err)
+			return
+		}
+		got = append(got, it.recs...)
+	}
+	if strings.Join(got, "|") != strings.Join(u.sent, "|") {
+		res.Fail("T1", "records-differ", "IXFR over UDP: the answer held %d records, the receiver delivered %d:\nsent: %v\ngot:  %v", len(u.sent), len(got), u.sent, got)
+		return
+	}
+	if !u.closedC {
+		res.Fail("T2", "connection-left-open", "IXFR over UDP: the transfer completed but the library did not close the connection")
+	}
 }
 
 //go:norace
